@@ -153,6 +153,160 @@ def reference_trajectory(H, c_ops, psi0, tlist, seed, annihilate_eps=1e-12):
     return out, jumps, slopes
 
 
+def reference_trajectory_dm(Lmat, c_ops, rho0, tlist, seed):
+    """the quantum-jump unravelling for density matrices: between jumps rho follows L - 1/2 sum {c+c, .}, a jump happens when
+    the trace reaches the drawn threshold, the channel is drawn with probabilities tr(c rho c+)"""
+    from scipy.optimize import brentq
+    gen = np.random.default_rng(seed)
+    d = rho0.shape[0]
+    Id = np.eye(d)
+    G = Lmat.astype(complex).copy()
+    for c in c_ops:
+        n = c.conj().T @ c
+        G -= 0.5 * (np.kron(Id, n) + np.kron(n.T, Id))       # column stacking: vec(A X B) = (B^T kron A) vec(X)
+    ev, V = np.linalg.eig(G)
+    Vi = np.linalg.inv(V)
+
+    def prop(tau, r):
+        return (V @ (np.exp(ev * tau) * (Vi @ r.reshape(-1, order="F")))).reshape(d, d, order="F")
+    t, rho = tlist[0], rho0.astype(complex) / np.trace(rho0)
+    target = gen.random()
+    out, jumps = [], []
+    for tk in tlist:
+        while True:
+            end = prop(tk - t, rho)
+            if np.trace(end).real > target:
+                break
+            f = lambda tau: np.trace(prop(tau, rho)).real - target      # noqa
+            tau = brentq(f, 0.0, tk - t, xtol=1e-14, rtol=1e-14) if f(0.0) > 0 else 0.0
+            before = prop(tau, rho)
+            probs = np.cumsum([np.trace(c @ before @ c.conj().T).real for c in c_ops])
+            k = 0 if len(c_ops) == 1 else int(np.searchsorted(probs, probs[-1] * gen.random()))
+            new = c_ops[k] @ before @ c_ops[k].conj().T
+            t = t + tau
+            rho = new / np.trace(new)
+            jumps.append((t, k))
+            target = gen.random()
+        out.append(end / np.trace(end))
+    return out, jumps
+
+
+def other_forms(rep, rng, tier, v):
+    """Liouvillian form (some channels treated deterministically), density-matrix states and mixed initial states:
+    every trajectory is the unravelling of its own initial state with its own seed"""
+    import qutip
+    tight = {"progress_bar": "", "keep_runs_results": True, "store_states": True, "norm_tol": 1e-8, "norm_t_tol": 1e-10, "norm_steps": 60, "atol": 1e-11, "rtol": 1e-9}
+    for _ in range(3 if tier == "quick" else 15):
+        d = int(rng.choice([2, 3]))
+        H = qutip.rand_herm(d, seed=int(rng.integers(1 << 30)))
+        cs = [np.sqrt(rng.uniform(0.3, 1.2)) * qutip.Qobj(rng.standard_normal((d, d)) + 1j * rng.standard_normal((d, d))) / np.sqrt(d) for _ in range(int(rng.integers(1, 3)))]
+        cdet = np.sqrt(rng.uniform(0.2, 0.8)) * qutip.Qobj(rng.standard_normal((d, d)) + 1j * rng.standard_normal((d, d))) / np.sqrt(d)
+        psi0 = qutip.rand_ket(d, seed=int(rng.integers(1 << 30)))
+        tl = np.linspace(0, float(rng.uniform(1.5, 3.0)), int(rng.choice([3, 6])))
+        cfg = {"dim": d, "H": str(H.full().tolist()), "c_ops": [str(c.full().tolist()) for c in cs], "c_det": str(cdet.full().tolist()), "psi0": str(psi0.full().ravel().tolist()), "tlist": tl.tolist()}
+
+        def compare(tag, r, j, ref_states, ref_jumps, as_dm):
+            rep.evaluations += 1
+            rep.count("form=" + tag)
+            got_t, got_k = list(r.col_times[j]), [int(x) for x in r.col_which[j]]
+            if len(got_t) != len(ref_jumps) or any(a != b[1] for a, b in zip(got_k, ref_jumps)):
+                if any(min(abs(tj - x) for x in tl[1:]) < 1e-5 for tj, _ in ref_jumps):
+                    return
+                v(f"form-jumps:{tag}", f"{tag}: trajectory has collapses {list(zip([round(x, 6) for x in got_t], got_k))}, the jump process with the same random numbers has {[(round(a, 6), b) for a, b in ref_jumps]}", cfg)
+                return
+            if got_t and max(abs(a - b[0]) for a, b in zip(got_t, ref_jumps)) > 1e-5:
+                v(f"form-jump-time:{tag}", f"{tag}: collapse times {got_t} vs {[a for a, _ in ref_jumps]}", cfg)
+                return
+            for a, b in zip(r.runs_states[j], ref_states):
+                A = a.full()
+                if A.shape[1] == 1:
+                    A = A @ A.conj().T
+                B = b if as_dm else np.outer(b, b.conj())
+                if np.abs(A - B).max() > 1e-4:
+                    v(f"form-state:{tag}", f"{tag}: reported states differ from the jump process by {np.abs(A - B).max():.1e}", cfg)
+                    return
+        for sd in [int(x) for x in rng.integers(0, 1 << 30, 2)]:
+            try:
+                with warnings.catch_warnings():
+                    warnings.simplefilter("ignore")
+                    with core.time_limit(300):
+                        ref_s, ref_j, _ = reference_trajectory(H.full(), [c.full() for c in cs], psi0.full().ravel(), tl, sd)
+                        for tag, Harg, st in (("liouvillian-ket", qutip.liouvillian(H), psi0), ("liouvillian-dm", qutip.liouvillian(H), qutip.ket2dm(psi0))):
+                            compare(tag, qutip.mcsolve(Harg, st, tl, cs, ntraj=1, seeds=[sd], options=tight), 0, ref_s, ref_j, False)
+                        Ld = qutip.liouvillian(H, [cdet])
+                        rd_s, rd_j = reference_trajectory_dm(Ld.full(), [c.full() for c in cs], qutip.ket2dm(psi0).full(), tl, sd)
+                        compare("deterministic-channel", qutip.mcsolve(Ld, psi0, tl, cs, ntraj=1, seeds=[sd], options=tight), 0, rd_s, rd_j, True)
+            except core.CaseTimeout:
+                raise
+            except Exception as e:
+                v("form-raises", f"mcsolve in Liouvillian form: {type(e).__name__}: {e}"[:200], cfg)
+        # time-dependent Hamiltonian and collapse operators: a time-dependent form of the constant problem is the constant problem;
+        # for a genuinely time-dependent one the integration methods produce the same trajectory for a seed
+        H1 = qutip.rand_herm(d, seed=int(rng.integers(1 << 30)))
+        sd = int(rng.integers(1 << 30))
+        try:
+            with warnings.catch_warnings():
+                warnings.simplefilter("ignore")
+                with core.time_limit(300):
+                    ref_s, ref_j, _ = reference_trajectory(H.full(), [c.full() for c in cs], psi0.full().ravel(), tl, sd)
+                    Hc = qutip.QobjEvo([0.5 * H, [0.5 * H, lambda t: 1.0]])
+                    cc = [qutip.QobjEvo([c, lambda t, k=1.0: k]) for c in cs]
+                    compare("time-dependent-form-of-constant", qutip.mcsolve(Hc, psi0, tl, cc, ntraj=1, seeds=[sd], options=tight), 0, ref_s, ref_j, False)
+                    Ht = qutip.QobjEvo([H, [H1, lambda t: np.cos(2.0 * t)]])
+                    ct = [qutip.QobjEvo([c, lambda t: 1.0 + 0.5 * np.sin(t)]) for c in cs]
+                    runs = {}
+                    for meth in ("adams", "vern7", "dop853"):
+                        runs[meth] = qutip.mcsolve(Ht, psi0, tl, ct, ntraj=1, seeds=[sd], options=dict(tight, method=meth))
+                    for meth in ("vern7", "dop853"):
+                        ra, rb = runs["adams"], runs[meth]
+                        rep.evaluations += 1
+                        rep.count("form=time-dependent:" + meth)
+                        ka, kb = [int(x) for x in ra.col_which[0]], [int(x) for x in rb.col_which[0]]
+                        ta, tb = list(ra.col_times[0]), list(rb.col_times[0])
+                        if ka != kb or (ta and max(abs(x - y) for x, y in zip(ta, tb)) > 1e-5):
+                            if any(min(abs(tj - x) for x in tl[1:]) < 1e-5 for tj in ta + tb):
+                                continue
+                            v("td-methods-disagree", f"time-dependent problem, seed {sd}: adams gives collapses {list(zip(ta, ka))}, {meth} gives {list(zip(tb, kb))}", cfg)
+                        elif max((x - y).norm() for x, y in zip(ra.runs_states[0], rb.runs_states[0]) if abs(abs(x.overlap(y)) - 1) > 0 or True) > 1e-4 and \
+                                max(1 - abs(x.overlap(y)) for x, y in zip(ra.runs_states[0], rb.runs_states[0])) > 1e-5:
+                            v("td-methods-disagree-state", f"time-dependent problem, seed {sd}: states of adams and {meth} differ", cfg)
+        except core.CaseTimeout:
+            raise
+        except Exception as e:
+            v("td-raises", f"mcsolve with time-dependent operators: {type(e).__name__}: {e}"[:200], cfg)
+        # mixed initial state: every trajectory starts from a member of the ensemble and is that member's trajectory for its seed
+        a_, b_ = qutip.rand_ket(d, seed=int(rng.integers(1 << 30))), None
+        other = qutip.rand_ket(d, seed=int(rng.integers(1 << 30)))
+        b_ = (other - a_.overlap(other) * a_).unit()
+        pw = float(rng.choice([0.25, 0.3, 0.5, 0.8]))
+        rho0 = pw * a_.proj() + (1 - pw) * b_.proj()
+        for ntraj in (6, 9):
+            try:
+                with warnings.catch_warnings():
+                    warnings.simplefilter("ignore")
+                    with core.time_limit(300):
+                        r = qutip.mcsolve(H, rho0, tl, cs, ntraj=ntraj, seeds=int(rng.integers(1 << 30)), options=tight)
+            except core.CaseTimeout:
+                raise
+            except Exception as e:
+                v("mixed-raises", f"mcsolve with a mixed initial state: {type(e).__name__}: {e}"[:200], cfg)
+                continue
+            w = np.array(r.runs_weights, dtype=float)
+            if abs(w.sum() + sum(r.deterministic_weights) - 1) > 1e-9:
+                v("mixed-weights", f"weights of a mixed-state ensemble sum to {w.sum()}", cfg)
+            if (r.average_states[0] - rho0).norm() > 1e-9:
+                v("mixed-initial-average", f"the ensemble average at the initial time differs from the initial density matrix by {(r.average_states[0] - rho0).norm():.1e}", cfg)
+            for j in range(len(r.seeds)):
+                s0 = r.runs_states[j][0].full().ravel()
+                member = max(r.initial_states, key=lambda m: abs(np.vdot(m[0].full().ravel() if isinstance(m, tuple) else m.full().ravel(), s0)))
+                mvec = (member[0] if isinstance(member, tuple) else member).full().ravel()
+                if abs(abs(np.vdot(mvec, s0)) - 1) > 1e-8:
+                    v("mixed-start", "a trajectory of a mixed-state ensemble does not start from a member of the ensemble", cfg)
+                    break
+                ref_s, ref_j, _ = reference_trajectory(H.full(), [c.full() for c in cs], mvec, tl, r.seeds[j])
+                compare("mixed-member", r, j, ref_s, ref_j, False)
+
+
 def run(tier, seed, replay):
     rep = core.Report(PID, tier, seed)
     rep.rule = ("jump search: random piecewise-linear norms x thresholds x (norm_steps, norm_tol, norm_t_tol) settings; channel rule: random rates incl. zeros x draws; "
@@ -372,6 +526,8 @@ def run(tier, seed, replay):
         rw = np.asarray(r.runs_weights).ravel() if hasattr(r, "runs_weights") else None
         if rw is not None and w is not None and abs(sum(rw) + w[0] - 1) > 1e-9:
             v("improved-sampling:weights", f"weights sum to {sum(rw) + w[0]}")
+    # ------------------------------------------------------------------ Liouvillian form, density-matrix and mixed initial states
+    other_forms(rep, rng, tier, v)
     # ------------------------------------------------------------------ non-Markovian: arguments at construction or at run time
     def rate1(t, amp=0.0):
         return 0.4 + amp * np.sin(5 * t)
